@@ -14,8 +14,8 @@ TStep ==
   /\ l <= Len(Traces[tid].steps)
   /\ LET e == Traces[tid].steps[l] IN
        /\ \/ e.cmd = "tick" /\ Tick
-          \/ e.cmd = "edit" /\ Edit
-          \/ e.cmd = "editolder" /\ EditOlder
+          \/ e.cmd = "editat" /\ EditAt(e.a)
+          \/ e.cmd = "relink" /\ Relink
           \/ e.cmd = "touch" /\ Touch
           \/ e.cmd = "damage" /\ Damage(e.a)
           \/ e.cmd = "switch" /\ SetSwitches(e.sw)
